@@ -265,8 +265,10 @@ def plan(tier):
         out.append(dict(kind="space", name="square-d2w2-full", space=only_elements(t2f), fn=make_fn(1), execs=30,
                         note="depth<=2 fan-out<=2 full alphabet, every single gap"))
         t0 = trees(Const(LEAVES[:3]), KINDS, 1, 1)
-        out.append(dict(kind="space", name="toplist", space=Seq(t0, 0, 3), fn=make_fn(3, True), execs=60,
-                        note="top-level lists of <=3 items, gap subsets of size<=3"))
+        out.append(dict(kind="space", name="toplist", space=Seq(t0, 0, 3), fn=make_fn(1, True), execs=60,
+                        note="top-level lists of <=3 items, every single gap"))
+        out.append(dict(kind="space", name="toplist-pairs", space=Seq(t0, 0, 2), fn=make_fn(3, True), execs=60,
+                        note="top-level lists of <=2 items, gap subsets of size<=3"))
     tl = trees(Const(LEAVES), KINDS, 1, 2 if tier == "quick" else 3)
     out.append(dict(kind="space", name="added-after-construction", space=only_elements(tl), fn=fn_later,
                     note=f"depth<=1 fan-out<=2 (quick) / 3: every single gap x {len(HOWS)} ways of adding the node later "
